@@ -40,6 +40,7 @@ func (ds *dataStore) newDataStoreCommand() *dataStoreCommand {
 }
 
 func (ds *dataStore) getStoreKey(keyName string) (sk *storeKey, exists bool) {
+	simYield("ds.get")
 	val, exists := ds.data.get(keyName)
 	if exists {
 		sk = val.(*storeKey)
